@@ -416,6 +416,10 @@ class Interp:
             return models.assoc_attr(self, obj, name)
         if isinstance(obj, SymSet):
             return models.symset_attr(self, obj, name)
+        if isinstance(obj, models.SymList):
+            if name == "append":
+                return obj.append
+            raise Unsupported("list.%s on a list of symbolic length" % name)
         if isinstance(obj, (SInt, SBool)):
             m = models.int_attr(self, obj, name)
             if m is not None:
